@@ -11,9 +11,40 @@ let show_dec = function
   | DecBadHeader p -> "bad " ^ string_of_n p
   | DecMax -> "max"
 
+let bool_of_string01 s = (s = "1")
+
+let show_hdr (h : header) =
+  Printf.sprintf "%s %s %s" (string_of_n h.h_method) (string_of_n h.h_size) (string_of_n h.h_crc)
+
+let show_hdr_dec = function
+  | Some h -> "ok " ^ show_hdr h
+  | None -> "none"
+
+let show_verdict = function
+  | Delivered (h, p, rest) ->
+    Printf.sprintf "ok %s %s %s" (show_hdr h) (hex_of_bytes p) (string_of_n (nlen rest))
+  | Poison -> "poison"
+  | Bad -> "bad"
+  | IOErr -> "io"
+
 let () =
   iter_lines (fun line ->
     match split_ws line with
+    | [id; "HDR"; m; sz; c] ->
+      let h = { h_method = n_of_string m; h_size = n_of_string sz; h_crc = n_of_string c } in
+      let b = encode_header h in
+      Printf.printf "%s HDR %s DEC %s\n" id (hex_of_bytes b) (show_hdr_dec (decode_header b))
+    | [id; "HDRDEC"; hx] ->
+      Printf.printf "%s HDRDEC %s\n" id (show_hdr_dec (decode_header (bytes_of_hex hx)))
+    | [id; "WRITE"; m; c; enc; _rb; p] ->
+      let h = { h_method = n_of_string m; h_size = N0; h_crc = n_of_string c } in
+      let e = bool_of_string01 enc in
+      let s = write_message h (bytes_of_hex p) e in
+      Printf.printf "%s WRITE %s READ %s\n" id (hex_of_bytes s) (show_verdict (read_frame e s))
+    | [id; "FRAME"; enc; _rb; _tag; s] ->
+      Printf.printf "%s FRAME %s\n" id (show_verdict (read_frame (bool_of_string01 enc) (bytes_of_hex s)))
+    | [id; "CRC"; p] ->
+      Printf.printf "%s CRC %s\n" id (string_of_n (crc32 (bytes_of_hex p)))
     | [id; "ENTRY"; t; i; ty; k; c; s; r; cmd] ->
       let e = { e_term = n_of_string t; e_index = n_of_string i; e_type = z_of_string ty;
                 e_key = n_of_string k; e_client = n_of_string c; e_series = n_of_string s;
